@@ -402,10 +402,16 @@ fn c06_client(case: &Case) {
     if simkernel::choose(6) == 0 {
         return c06_timeout_with_held_siblings(case, listener, addr);
     }
+    // the malformed header arrives from a peer that has stopped reading while a caller with a
+    // large request is parked in write(): the calls in flight must fail all the same
+    let peer_stops_reading = matches!(kill, Kill::Malformed(_)) && simkernel::choose(3) == 0;
     case.sample(json!({"scenario": "connection-fault", "in_flight": n_inflight, "kill": format!("{kill:?}"),
-        "server_reads": read_first, "server_answers": answer_first, "per_call_timeouts": with_timeouts}));
+        "server_reads": read_first, "server_answers": answer_first, "per_call_timeouts": with_timeouts, "peer_stops_reading": peer_stops_reading}));
 
     let srv_case = case.clone();
+    // when the malformed header was written (0 = not that kind of fault)
+    let kill_at_main = Arc::new(std::sync::atomic::AtomicU64::new(0));
+    let kill_at = kill_at_main.clone();
     let server = thread::spawn(move || {
         let Ok((mut s, _)) = listener.accept() else { return };
         s.set_read_timeout(Some(Duration::from_millis(30))).ok();
@@ -423,15 +429,26 @@ fn c06_client(case: &Case) {
                 return;
             }
         }
-        // the peer keeps draining what the client writes (peer stalls are C05's quantifier)
+        // the peer keeps draining what the client writes - unless this is the run where it
+        // stops reading for good (and a caller ends up parked in write() when the fault lands)
         let drain = s.try_clone().unwrap();
+        if peer_stops_reading {
+            // (a modest send buffer, so that a modest request is enough to park its writer)
+            net::set_capacity(&s.conn(), Side::A, 2048);
+        }
         let drainer = thread::spawn(move || {
+            if peer_stops_reading {
+                return;
+            }
             let mut d = drain;
             let mut buf = [0u8; 4096];
             d.set_read_timeout(Some(Duration::from_millis(500))).ok();
-            while let Ok(n) = std::io::Read::read(&mut d, &mut buf) {
-                if n == 0 {
-                    break;
+            loop {
+                match std::io::Read::read(&mut d, &mut buf) {
+                    Ok(0) => break,
+                    Ok(_) => {}
+                    Err(e) if e.kind() == ErrorKind::Interrupted => {}
+                    Err(_) => break,
                 }
             }
         });
@@ -448,8 +465,9 @@ fn c06_client(case: &Case) {
                 srv_case.probe("fault.malformed_header");
                 let id = got.last().map(|f| f.id).unwrap_or(1);
                 write_all_retry(&mut s, &malformed_header(k, id)).ok();
-                // keep the socket open: the client must fail on the bytes alone
-                thread::sleep(Duration::from_millis(2_000));
+                // keep the socket open (ten minutes): the client must fail on the bytes alone
+                kill_at.store(simkernel::now_ns(), std::sync::atomic::Ordering::SeqCst);
+                thread::sleep(Duration::from_millis(600_000));
             }
             Kill::Partial(class) => {
                 srv_case.probe("fault.cut_mid_frame");
@@ -488,6 +506,16 @@ fn c06_client(case: &Case) {
             results.lock().unwrap().push((t, r, simkernel::now_ns()));
         }));
     }
+    if peer_stops_reading {
+        // one more caller whose request cannot fit into the socket: it parks in write()
+        let c = client.clone();
+        let results = results.clone();
+        hs.push(thread::spawn(move || {
+            let r = do_call(&c, CallKind::Raw(40_000), 99, None);
+            results.lock().unwrap().push((99, r, simkernel::now_ns()));
+        }));
+        case.probe("writer_parked_when_malformed_frame_arrived");
+    }
     for h in hs {
         h.join().ok();
     }
@@ -505,9 +533,23 @@ fn c06_client(case: &Case) {
     case.check(oks <= answer_first, "ok-without-response", || {
         format!("{oks} calls returned Ok but the server answered only {answer_first}")
     });
+    // the peer that sent a malformed header keeps the socket open for ten minutes: the calls
+    // must have failed on the bytes, not when the socket finally closed
+    let killed = kill_at_main.load(std::sync::atomic::Ordering::SeqCst);
+    if killed > 0 {
+        for (t, _, at) in &res {
+            if !case.check(*at <= killed + 120_000_000_000, "hang", || format!("call {t}, in flight when the malformed header arrived at t={killed}ns, returned only at t={at}ns")) {
+                return;
+            }
+        }
+    }
     // after the failure: a later call must return Err (never block), nothing is left pending
     thread::sleep(Duration::from_millis(3_000));
+    let t0 = simkernel::now_ns();
     let later = do_call(&client, CallKind::Json, 1000, if coin() { Some(call_timeout) } else { None });
+    if !case.check(simkernel::now_ns() - t0 <= 120_000_000_000, "hang", || format!("a call made after the connection failed ({kill:?}) took {} s to return", (simkernel::now_ns() - t0) / 1_000_000_000)) {
+        return;
+    }
     case.check(later.is_err(), "call-on-dead-connection-succeeded", || "a call after the connection failed returned Ok".into());
     let later2 = do_call(&client, CallKind::Empty, 1001, None);
     case.check(later2.is_err(), "call-on-dead-connection-succeeded", || "a second call after the connection failed returned Ok".into());
